@@ -7,10 +7,12 @@
 (*                 default object of every builder type of one (package, language)   *)
 (*  trace.ndjson   one record per real run:                                          *)
 (*    kind "seq"   (C09) a call sequence: ei, di, lang, seq [o, as], real = [obj,    *)
-(*                 hasObj, hasVerdict, built, hasBuilt, fails, raised], judge = [build]           *)
+(*                 hasObj, hasVerdict, built, hasBuilt, fails, raised, stable], judge = [build]           *)
 (*                 (build = FALSE when a failed nested builder's target was assigned  *)
 (*                 again later: the property does not say whether Build() must still  *)
 (*                 report it)                                                          *)
+(*    kind "fresh" (C09) the object of a builder that was given no option and the     *)
+(*                 object's own default object: ei, di, key, typeDefault, fresh        *)
 (*    kind "conv"  (C14) a value and what the compiled converter output rebuilt:      *)
 (*                 ei, di, key, v, hasR, r                                             *)
 (*    kind "node"  (C14) one builder call chain of a converter output: ei, di, key,   *)
@@ -58,6 +60,9 @@ SeqViolated(r) ==
   \cup (IF spurious THEN {"SpuriousError"} ELSE {})
   \cup (IF exact THEN {} ELSE {"Exact"})
   \cup (IF consts THEN {} ELSE {"Consts"})
+  \* Build() is a function of the builder's state and a fresh builder starts from the default whatever happened before:
+  \* recorded by the driver (second Build(), the same calls on a second fresh builder, the fresh object over the process)
+  \cup (IF r.real.stable THEN {} ELSE {"Stable"})
 
 (* ------------------------------- C14 ---------------------------------- *)
 ConvViolated(r) ==
@@ -66,7 +71,20 @@ ConvViolated(r) ==
 NodeViolated(r) ==
   IF NotOnce(SOf(r), TypeOfKey(Entries[r.ei].schema, r.key), DOf(r), r.key, BOf(r)[r.key], r.v, r.counts) = {} THEN {} ELSE {"Once"}
 
-Violated(r) == CASE r.kind = "seq" -> SeqViolated(r) [] r.kind = "conv" -> ConvViolated(r) [] r.kind = "node" -> NodeViolated(r)
+\* "the freshly constructed default object": a builder that was given no option holds the object's OWN default object plus
+\* what its constructor is told to set (constants are in both; `initialize` veneers = rules of kind "init")
+RECURSIVE ApplyInits(_, _, _, _, _, _)
+ApplyInits(S, D, key, t, obj, rules) ==
+  IF rules = <<>> THEN obj
+  ELSE LET r == Head(rules) IN
+       ApplyInits(S, D, key, t,
+                  IF r.k = "init" /\ r.obj = key THEN ApplyAt(S, D, key, t, obj, Tail(r.fields), "direct", JStr(r.fields[1]), NoJ) ELSE obj,
+                  Tail(rules))
+FreshViolated(r) ==
+  IF SameObj(ApplyInits(SOf(r), DOf(r), r.key, TypeOfKey(Entries[r.ei].schema, r.key), r.typeDefault, Entries[r.ei].rules), r.fresh)
+  THEN {} ELSE {"Fresh"}
+
+Violated(r) == CASE r.kind = "seq" -> SeqViolated(r) [] r.kind = "fresh" -> FreshViolated(r) [] r.kind = "conv" -> ConvViolated(r) [] r.kind = "node" -> NodeViolated(r)
 
 Verdict == l = 1 \/ Violated(Step) = {} \/
            (~Strict /\ PrintT(<<"FAIL", ToJson([l |-> l - 1, violated |-> Violated(Step)])>>))
